@@ -201,6 +201,26 @@ claimed["C20"] = (
     "Partial: serialised output is compared as parsed data, not as bytes; the destruction order of HashMap::clear and of "
     "a dropped World's resources is unspecified in the code and canonicalised (sorted) before comparing.", "5.C20")
 ENGINE["C20"] = "coq-world"
+claimed["C19"] = (
+    "Theorems (Coq, closed under the global context) about fault-aware models of the destroying operations, for every raw "
+    "storage kind and wrapper, every content and every choice of which destructor call panics (none / first / k-th / "
+    "last), and every oracle for the orders the code leaves unspecified (hash-map iteration, resource drop order): with "
+    "no fault armed the functions coincide with the ordinary model; clear, drop(id) / delete_components, insert "
+    "(overwrite and vacant), remove, Drop of a storage and of the World each visit no value twice, destroy exactly the "
+    "stated values (all if the kind keeps destroying while unwinding, else the first k; the exact leaked remainder is "
+    "stated per kind) and leave a storage satisfying the invariant (mask = keys of the map of owned values; for "
+    "DefaultVecStorage a weaker instance that admits one unreachable live cell); over whole histories with faults the "
+    "destruction ledger never holds a real value twice, no lookup, join, slice view or handed-back value carries a "
+    "destroyed value, nothing is stuck, and the invariant holds after every history (the world stays usable); a faulting "
+    "delete / maintain leaves the allocator exactly as the non-faulting one and only removes components of the deleted "
+    "entities; the same for ChangeSet add / clear. Tie: the real code runs every destroying operation on all 16 storages "
+    "with the fault position swept over every destructor call (and beyond), followed by observations, churn, a second "
+    "faulting operation and teardown; destruction order, panic point and every observation must equal the extracted "
+    "model's, and independently of the model the ledger must hold no value twice, no observation may show a destroyed "
+    "value and the process must not crash. Partial: what std's drop glue / BTreeMap / hashbrown do while unwinding is "
+    "measured and pinned by the correspondence, not derived; one fault per operation; drain, entry API, lazy actions and "
+    "events under faults are not modelled.", "5.C19")
+ENGINE["C19"] = "coq-unwind"
 REASONS = {}
 
 checks = []
@@ -225,6 +245,8 @@ m = {
                  "kind_free_text": "Coq model of shred's staging and borrow flags + instrumented real dispatch"},
                 {"name": "coq-saveload", "path": "coq/theories/SaveLoad", "serves_properties": ["C14", "C15"],
                  "kind_free_text": "Coq model of specs::saveload (markers, serialise, deserialise) + two-world Rust executor"},
+                {"name": "coq-unwind", "path": "coq/theories/Unwind", "serves_properties": ["C19"],
+                 "kind_free_text": "Coq fault-aware models of the destroying operations + Rust executor with an armed destructor fault"},
                 {"name": "coq-derive", "path": "coq/theories/SaveLoad", "serves_properties": ["C18"],
                  "kind_free_text": "Coq model of the derive macros' output + generated Rust crates carrying the real derives"},
                 {"name": "coq-world", "path": "coq/theories", "serves_properties": sorted(p for p in claimed if ENGINE.get(p, "coq-world") == "coq-world"),
